@@ -80,7 +80,9 @@ EndWhy(C, hdr, e, on) ==
   ELSE IF "errors" \in on /\ e.outcome = "error" /\ hdr.mode = "real"
           /\ \E j \in C.failedJobs : j \notin C.ended THEN "errors:failing-job-not-recorded"
   ELSE IF "errors" \in on /\ e.outcome = "value" /\ hdr.expect.res = "err" THEN "errors:error-swallowed"
-  ELSE IF "dry" \in on /\ hdr.mode = "dry" /\ e.outcome \notin {"value", "dry"} THEN "dry:unexpected-outcome"
+  \* a dry run may also fail where the real run would fail before executing anything (unknown executor)
+  ELSE IF "dry" \in on /\ hdr.mode = "dry" /\ e.outcome \notin {"value", "dry", "error"} THEN "dry:unexpected-outcome"
+  ELSE IF "dry" \in on /\ hdr.prevdry.res = "error" /\ e.outcome = "value" THEN "dry:dry-run-failed-but-real-run-returned"
   ELSE IF "dry" \in on /\ hdr.prevdry.res = "value"
           /\ ~(e.outcome = "value" /\ e.val = hdr.prevdry.val) THEN "dry:real-run-differs-from-completed-dry-run"
   ELSE IF "dry" \in on /\ hdr.prevdry.res = "dry" /\ C.nsub = 0 THEN "dry:dry-run-stopped-but-real-run-executes-nothing"
